@@ -212,7 +212,17 @@ def gen_cases(ctx, edge_pairs):
         for k in range(90 * m):
             ta = rng.choice(["i8", "i8", "u8", "i16"])
             tb = ta if rng.random() < 0.85 else rng.choice(["i8", "i16"])
-            emit({"cls": "set", "op": op, "a": rand_iv(rng, ta, pick_mode(rng, ta != "i16")), "b": rand_iv(rng, tb, pick_mode(rng, tb != "i16"))})
+            a, b = rand_iv(rng, ta, pick_mode(rng, ta != "i16")), rand_iv(rng, tb, pick_mode(rng, tb != "i16"))
+            if ta != tb:
+                # an unbounded end of the narrower type becomes unbounded in the common type after coercion; "superset" claims
+                # about it are a matter of reading, not of soundness: mixed-type set cases use bounded intervals only
+                for x in (a, b):
+                    tmin, tmax = TYS[x["ty"]]
+                    if x["lu"]:
+                        x["lu"], x["lo"] = False, tmin
+                    if x["hu"]:
+                        x["hu"], x["hi"] = False, tmax
+            emit({"cls": "set", "op": op, "a": a, "b": b})
         for (pa, pb) in edge_pairs[: (40 if q else len(edge_pairs))]:
             emit({"cls": "set", "op": op, "a": pa, "b": pb})
     for k in range(120 * m):
@@ -315,8 +325,11 @@ def finding_key(ev, swap_ok=False):
             return KF_MULOV
     if cls == "prop2" and op == "div":
         return KF_PDIV
-    if cls == "prop2" and op == "mul" and (any(0 in lo_hi(ev[k]) for k in ("a", "b")) or neg_to_zero(ev["p"])):
-        return KF_PMUL0
+    if cls == "prop2" and op == "mul":
+        mid = ev.get("mid")
+        divisors = [ev["a"], ev["b"]] + ([mid] if isinstance(mid, dict) else [])
+        if any(0 in lo_hi(x) for x in divisors) or neg_to_zero(ev["p"]):
+            return KF_PMUL0
     if cls == "prop2" and op in CMP:
         pl, ph = ev["p"]["lo"], ev["p"]["hi"]
         if ev["rk"] == "none" and ((pl, ph) == (0, 1) or (op == "eq" and (pl, ph) == (0, 0))):
@@ -446,7 +459,7 @@ def run(ctx):
     if ctx.replay:
         rp = json.load(open(ctx.replay))
         case = dict(rp["case"], id=0)
-        for k in ("rk", "r", "r1", "r2", "rr", "flag", "rn", "rt", "msg"):
+        for k in ("rk", "r", "r1", "r2", "rr", "flag", "rn", "rt", "msg", "mid"):
             case.pop(k, None)
         write_ndjson(ctx.path("cases.ndjson"), [case])
         run_harness(ctx, "vfacts", ["c23", "--in", ctx.path("cases.ndjson"), "--out", ctx.path("events.ndjson")])
